@@ -137,12 +137,36 @@ func Authenticate(ab *authboss.Authboss, w http.ResponseWriter, req **http.Reque
 	}
 
 	*req = (*req).WithContext(context.WithValue((*req).Context(), authboss.CTXKeyPID, pid))
+	// The session changes below only reach the client with the response, make
+	// sure the rest of this request already sees itself as half-authed.
+	state, _ := (*req).Context().Value(authboss.CTXKeySessionState).(authboss.ClientState)
+	*req = (*req).WithContext(context.WithValue((*req).Context(), authboss.CTXKeySessionState, halfAuthedState{cs: state, pid: pid}))
 	authboss.PutSession(w, authboss.SessionKey, pid)
 	authboss.PutSession(w, authboss.SessionHalfAuthKey, "true")
 	authboss.DelCookie(w, authboss.CookieRemember)
 	authboss.PutCookie(w, authboss.CookieRemember, token)
 
 	return nil
+}
+
+// halfAuthedState overlays the session state read at the start of the request
+// with the values Authenticate has just put into the session.
+type halfAuthedState struct {
+	cs  authboss.ClientState
+	pid string
+}
+
+func (h halfAuthedState) Get(key string) (string, bool) {
+	switch key {
+	case authboss.SessionKey:
+		return h.pid, true
+	case authboss.SessionHalfAuthKey:
+		return "true", true
+	}
+	if h.cs == nil {
+		return "", false
+	}
+	return h.cs.Get(key)
 }
 
 // AfterPasswordReset is called after the password has been reset, since
